@@ -527,150 +527,154 @@ func (c *Ctx) fieldOfCall(call *ssa.Call) string {
 // fixedWidthModelFields: model struct field → FixedString width of the column it feeds (from the insert services).
 func (c *Ctx) fixedWidthModelFields() map[string]int {
 	out := map[string]int{}
-	acqs := c.acquirers()
-	for _, fi := range c.Funcs(c.PkgsUnder("writer/service/impl")) {
-		if isTestFile(c, fi.Decl) {
-			continue
+	for _, svc := range c.insertServices() {
+		feeds := c.columnFeeds(svc.procFn, svc.ai)
+		for f, w := range svc.ai.sizeOf {
+			for m := range feeds[f] {
+				if m != "?" {
+					out[m] = w
+				}
+			}
 		}
-		info := fi.Pkg.TypesInfo
-		ast.Inspect(fi.Decl.Body, func(n ast.Node) bool {
-			call, ok := n.(*ast.CallExpr)
-			if !ok || len(call.Args) != 1 {
-				return true
-			}
-			se, ok := ast.Unparen(call.Fun).(*ast.SelectorExpr)
-			if !ok || !strings.HasPrefix(se.Sel.Name, "Append") {
-				return true
-			}
-			// model field in the argument
-			var mField, mType string
-			ast.Inspect(call.Args[0], func(m ast.Node) bool {
-				if x, ok := m.(*ast.SelectorExpr); ok {
-					if sel, ok := info.Selections[x]; ok && sel.Kind() == types.FieldVal {
-						if nt := namedOf(sel.Recv()); nt != nil && nt.Obj().Pkg() != nil && nt.Obj().Pkg().Path() == pkgWModel {
-							mField, mType = x.Sel.Name, nt.Obj().Name()
-						}
-					}
-				}
-				return true
-			})
-			if mField == "" {
-				return true
-			}
-			// acquirer field in the receiver expression
-			ast.Inspect(se.X, func(m ast.Node) bool {
-				if x, ok := m.(*ast.SelectorExpr); ok {
-					if tv, ok := info.Types[x.X]; ok {
-						if nt := namedOf(tv.Type); nt != nil {
-							if ai := acqs[nt.Obj().Name()]; ai != nil {
-								if w, ok := ai.sizeOf[x.Sel.Name]; ok {
-									out[mType+"."+mField] = w
-								}
-							}
-						}
-					}
-				}
-				return true
-			})
-			return true
-		})
 	}
 	return out
+}
+
+// lenChecked: at instruction `at` of fn the byte slice v is known to have length w — a branch on `len(v) != w` / `== w` whose
+// ok-edge dominates `at` — or v is a parameter and every call site passes a value for which this holds at the call.
+func lenChecked(g *CallGraph, rev map[*ssa.Function][]cgIn, fn *ssa.Function, v ssa.Value, at ssa.Instruction, w int, depth int) bool {
+	if depth > 4 {
+		return false
+	}
+	cv := canon(v)
+	for _, b := range fn.Blocks {
+		if len(b.Instrs) == 0 {
+			continue
+		}
+		iff, ok := b.Instrs[len(b.Instrs)-1].(*ssa.If)
+		if !ok {
+			continue
+		}
+		cmp, ok := iff.Cond.(*ssa.BinOp)
+		if !ok || (cmp.Op != token.NEQ && cmp.Op != token.EQL) {
+			continue
+		}
+		isLenOfV := func(x ssa.Value) bool {
+			call, ok := x.(*ssa.Call)
+			if !ok {
+				return false
+			}
+			bi, ok := call.Common().Value.(*ssa.Builtin)
+			return ok && bi.Name() == "len" && len(call.Common().Args) == 1 && canon(call.Common().Args[0]) == cv
+		}
+		isW := func(x ssa.Value) bool {
+			k, ok := x.(*ssa.Const)
+			return ok && k.Value != nil && k.Value.ExactString() == fmt.Sprint(w)
+		}
+		if !((isLenOfV(cmp.X) && isW(cmp.Y)) || (isLenOfV(cmp.Y) && isW(cmp.X))) {
+			continue
+		}
+		okSucc := b.Succs[1]
+		if cmp.Op == token.EQL {
+			okSucc = b.Succs[0]
+		}
+		if len(okSucc.Preds) == 1 && (okSucc == at.Block() || okSucc.Dominates(at.Block())) {
+			return true
+		}
+	}
+	if p, ok := v.(*ssa.Parameter); ok {
+		idx := -1
+		for i, q := range fn.Params {
+			if q == p {
+				idx = i
+			}
+		}
+		n := 0
+		for _, in := range rev[fn] {
+			site := in.edge.Site
+			if site == nil || in.edge.Fallback || idx < 0 {
+				continue
+			}
+			args := site.Common().Args
+			ai := idx
+			if site.Common().IsInvoke() {
+				ai = idx - 1
+			}
+			if ai < 0 || ai >= len(args) {
+				continue
+			}
+			n++
+			if !lenChecked(g, rev, in.caller, args[ai], site.(ssa.Instruction), w, depth+1) {
+				return false
+			}
+		}
+		return n > 0
+	}
+	return false
 }
 
 var ruleF5 = &Rule{
 	ID:    "F5",
 	Floor: 4,
-	Doc: "fixed-width ids are validated where they enter the row model: every append of a function parameter to a model field that feeds a FixedString(n) column (widths taken from the insert services' SetSize calls) is dominated by the edge on which `len(param) != n` is false, the other edge leaving the function. " +
-		"ColFixedStr.Append panics on any other length — after earlier columns of the shared batch were already extended — so an unchecked id skews the batch for every client",
+	Doc: "fixed-width ids are validated where they enter the row model (SSA, interprocedural): every append to a row-model field that feeds a FixedString(n) column (the widths come from the insert services' SetSize calls, the feeding fields from the services' request processors) appends a value whose length is known to be n at that point: " +
+		"a branch on `len(v) != n` (or `== n`) whose ok-edge dominates the append, in the same function or — when v is a parameter — at every call site. ColFixedStr.Append panics on any other length, after earlier columns of the shared batch were already extended, so an unchecked id skews the batch for every client",
 	Run: func(c *Ctx) []Obl {
 		widths := c.fixedWidthModelFields()
 		var obls []Obl
 		if len(widths) == 0 {
 			return []Obl{{Key: "fixed-width model fields", Pos: "-", Status: Undecided, Msg: "no FixedString-fed model field recognised"}}
 		}
-		for _, fi := range c.Funcs(c.PkgsUnder("writer/utils/unmarshal")) {
-			if isTestFile(c, fi.Decl) {
-				continue
-			}
-			info := fi.Pkg.TypesInfo
-			params := map[types.Object]bool{}
-			for _, f := range fi.Decl.Type.Params.List {
-				for _, n := range f.Names {
-					params[info.Defs[n]] = true
-				}
-			}
-			var g *FuncCFG
-			ast.Inspect(fi.Decl.Body, func(n ast.Node) bool {
-				call, ok := n.(*ast.CallExpr)
-				if !ok {
-					return true
-				}
-				id, ok := call.Fun.(*ast.Ident)
-				if !ok || id.Name != "append" || len(call.Args) != 2 {
-					return true
-				}
-				se, ok := ast.Unparen(call.Args[0]).(*ast.SelectorExpr)
-				if !ok {
-					return true
-				}
-				sel, ok := info.Selections[se]
-				if !ok {
-					return true
-				}
-				nt := namedOf(sel.Recv())
-				if nt == nil {
-					return true
-				}
-				w, ok := widths[nt.Obj().Name()+"."+se.Sel.Name]
-				if !ok {
-					return true
-				}
-				pid, ok := ast.Unparen(call.Args[1]).(*ast.Ident)
-				if !ok || !params[info.Uses[pid]] {
-					obls = append(obls, Obl{Key: fmt.Sprintf("%s append(%s, %s) width %d", fi.Name(), c.normText(se), c.normText(call.Args[1]), w), Pos: c.pos(call.Pos()), Status: Undecided, Msg: "the appended value is not a plain parameter; its length cannot be traced"})
-					return true
-				}
-				if g == nil {
-					g = c.cfgOf(fi, fi.Decl.Body)
-				}
-				ab, _ := g.BlockOf(call)
-				okGuard := false
-				for _, b := range g.g.Blocks {
-					cond, t, e := condEdges(b)
-					if cond == nil || ab == nil {
+		g := c.CG()
+		rev := g.reverseVTA()
+		var kk keyer
+		for _, fn := range liveModuleFuncs(c, "writer/utils/unmarshal") {
+			for _, b := range fn.Blocks {
+				for _, ins := range b.Instrs {
+					st, ok := ins.(*ssa.Store)
+					if !ok {
 						continue
 					}
-					for _, a := range atomsFalseOn(cond) {
-						be, ok := ast.Unparen(a).(*ast.BinaryExpr)
-						if !ok || be.Op != token.NEQ {
-							continue
-						}
-						lc, ok := ast.Unparen(be.X).(*ast.CallExpr)
-						if !ok {
-							continue
-						}
-						if lid, ok := lc.Fun.(*ast.Ident); !ok || lid.Name != "len" || len(lc.Args) != 1 {
-							continue
-						}
-						aid, ok := ast.Unparen(lc.Args[0]).(*ast.Ident)
-						if !ok || info.Uses[aid] != info.Uses[pid] {
-							continue
-						}
-						if tv, ok := info.Types[be.Y]; ok && tv.Value != nil && tv.Value.ExactString() == fmt.Sprint(w) && g.failureLeaves(t, e) && g.Dominates(e, ab) {
-							okGuard = true
+					fa, ok := st.Addr.(*ssa.FieldAddr)
+					if !ok {
+						continue
+					}
+					nt := namedOf(fa.X.Type())
+					if nt == nil {
+						continue
+					}
+					k := fieldKey(fa.X.Type(), fa.Field)
+					fname := k[strings.LastIndex(k, ".")+1:]
+					w, ok := widths[nt.Obj().Name()+"."+fname]
+					if !ok {
+						continue
+					}
+					app, ok := st.Val.(*ssa.Call)
+					if !ok {
+						continue
+					}
+					if bi, ok := app.Common().Value.(*ssa.Builtin); !ok || bi.Name() != "append" || len(app.Common().Args) != 2 {
+						continue
+					}
+					elems := variadicElems(app.Common().Args[1])
+					key := kk.key(fmt.Sprintf("%s appends to %s.%s (FixedString(%d))", ssaName(fn), nt.Obj().Name(), fname, w))
+					if len(elems) == 0 {
+						obls = append(obls, Obl{Key: key, Pos: c.pos(app.Pos()), Status: Violation, Msg: "a whole slice is spread into a fixed-width id column: the lengths of its elements cannot be checked here"})
+						continue
+					}
+					okAll := true
+					for _, e := range elems {
+						if !lenChecked(g, rev, fn, e, st, w, 0) {
+							okAll = false
 						}
 					}
+					if okAll {
+						obls = append(obls, Obl{Key: key, Pos: c.pos(app.Pos()), Status: OK})
+					} else {
+						obls = append(obls, Obl{Key: key, Pos: c.pos(app.Pos()), Status: Violation,
+							Msg: fmt.Sprintf("the appended id reaches a FixedString(%d) column without a length check that dominates the append (here or at every call site): a span with an id of another length panics inside the insert routine after part of the shared batch was extended", w)})
+					}
 				}
-				key := fmt.Sprintf("%s append(%s, %s) is guarded by len == %d", fi.Name(), c.normText(se), pid.Name, w)
-				if okGuard {
-					obls = append(obls, Obl{Key: key, Pos: c.pos(call.Pos()), Status: OK})
-				} else {
-					obls = append(obls, Obl{Key: key, Pos: c.pos(call.Pos()), Status: Violation,
-						Msg: fmt.Sprintf("%s reaches a FixedString(%d) column without a dominating length check: a span with an id of another length panics inside the insert routine after part of the shared batch was extended", pid.Name, w)})
-				}
-				return true
-			})
+			}
 		}
 		return obls
 	},
